@@ -201,7 +201,11 @@ func scenario(seed int64, sn int) (int, int) {
 	if prof.pairs > 0 {
 		r := rand.New(rand.NewSource(seed))
 		for g := 0; g < prof.pairs; g++ {
-			ntran.Add(int64(groupInterleaved(r)))
+			if g%3 == 2 {
+				ntran.Add(int64(raceTemplate(r)))
+			} else {
+				ntran.Add(int64(groupInterleaved(r)))
+			}
 		}
 	}
 	if prof.pairs == 0 {
@@ -620,6 +624,11 @@ type client struct {
 	hot   *hotspot // shared by the transactions of one interleaved group
 	trig  []any    // trigger calls observed during the current operation
 	throw bool     // make the next trigger call of this client throw
+	// one-shot overrides used by the directed race templates
+	force     []int // next randRow result
+	forceNew  []int // next update's new row
+	forcePick bool  // next pick uses a point lookup of force
+	forceScan []int // next scan: {index, dir, limit}
 }
 
 func (c *client) tran() interface {
@@ -681,6 +690,207 @@ func groupInterleaved(r *rand.Rand) int {
 		}
 	}
 	return len(cs)
+}
+
+// peekRows lists the committed rows of a table without logging anything
+func peekRows(td tableDef) [][]int {
+	rt := db.NewReadTran()
+	var rows [][]int
+	it := rt.IndexIter(td.name, 0)
+	for it.Next(rt); !it.Eof(); it.Next(rt) {
+		rows = append(rows, rowOf(db19.OffToRec(db.Store, it.CurOff()), td.ncols))
+	}
+	return rows
+}
+
+// raceTemplate runs one directed two-transaction race: B commits a change between an
+// observation of A and A's own write + commit. The real outcome (who fails, what is
+// visible) is whatever the code does; the trace specification decides. Returns the
+// number of transactions.
+func raceTemplate(r *rand.Rand) int {
+	a := beginTran(r, true)
+	b := beginTran(r, true)
+	if a == nil || b == nil {
+		if a != nil {
+			a.finish()
+		}
+		if b != nil {
+			b.finish()
+		}
+		return 0
+	}
+	defer func() {
+		if !b.done {
+			b.finish()
+		}
+		if !a.done {
+			a.finish()
+		}
+	}()
+	hasFk := false
+	var srcs []tableDef
+	for _, td := range prof.tables {
+		if strings.Contains(td.admin, " in ") {
+			hasFk = true
+			srcs = append(srcs, td)
+		}
+	}
+	other := func(td tableDef) tableDef { // some table to write to so that A has updates
+		for _, t := range prof.tables {
+			if t.name != td.name && !strings.Contains(t.admin, " in ") {
+				return t
+			}
+		}
+		return td
+	}
+	kind := r.Intn(6)
+	if hasFk && r.Intn(2) == 0 {
+		kind = 6 + r.Intn(2)
+	}
+	switch kind {
+	case 0, 1: // A looks up key k; B inserts / deletes / changes that row and commits; A writes elsewhere
+		td := prof.tables[r.Intn(len(prof.tables))]
+		rows := peekRows(td)
+		row := a.randRow(td)
+		if len(rows) > 0 && r.Intn(2) == 0 {
+			row = rows[r.Intn(len(rows))]
+		}
+		a.force = row
+		a.lookup(td)
+		b.force = row
+		if r.Intn(2) == 0 {
+			b.output(td)
+		} else {
+			b.forcePick = true
+			if r.Intn(2) == 0 {
+				b.delete(td)
+			} else {
+				b.update(td)
+			}
+		}
+		b.finish()
+		if !a.dead {
+			a.output(other(td))
+		}
+	case 2, 3: // A reads part of a secondary index; B moves a row inside that index (key unchanged); A writes
+		td := prof.tables[r.Intn(len(prof.tables))]
+		ts := a.schema(td)
+		if len(ts.Indexes) < 2 {
+			return 2
+		}
+		ix := 1 + r.Intn(len(ts.Indexes)-1)
+		dir := 1 - 2*r.Intn(2)
+		a.forceScan = []int{ix, dir, 1 + r.Intn(2)}
+		a.scan(td)
+		rows := peekRows(td)
+		if len(rows) > 0 {
+			old := rows[r.Intn(len(rows))]
+			nw := append([]int{}, old...)
+			for _, col := range ts.Indexes[ix].Columns {
+				ci := colIndex(ts.Columns, col)
+				nw[ci] = r.Intn(td.dom[ci] + 1)
+				if !td.opt[ci] && nw[ci] == 0 {
+					nw[ci] = 1
+				}
+			}
+			b.force = old
+			b.forcePick = true
+			b.forceNew = nw
+			b.update(td)
+		} else {
+			b.output(td)
+		}
+		b.finish()
+		if !a.dead {
+			if r.Intn(2) == 0 {
+				a.output(td)
+			} else {
+				a.output(other(td))
+			}
+		}
+	case 4: // both insert the same key
+		td := prof.tables[r.Intn(len(prof.tables))]
+		row := a.randRow(td)
+		a.force = row
+		a.output(td)
+		row2 := b.randRow(td)
+		ts := a.schema(td)
+		if k := a.keyIndex(ts); k >= 0 {
+			for _, col := range ts.Indexes[k].Columns {
+				ci := colIndex(ts.Columns, col)
+				row2[ci] = row[ci]
+			}
+		}
+		b.force = row2
+		b.output(td)
+		if r.Intn(2) == 0 {
+			b.finish()
+		} else {
+			a.finish()
+		}
+	case 5: // A scans a whole table (sees it empty or not); B inserts or deletes and commits; A writes
+		td := prof.tables[r.Intn(len(prof.tables))]
+		a.forceScan = []int{0, 1, 0}
+		a.scan(td)
+		if r.Intn(2) == 0 {
+			b.output(td)
+		} else {
+			b.delete(td)
+		}
+		b.finish()
+		if !a.dead {
+			a.output(other(td))
+		}
+	case 6: // B inserts a reference to target K and commits; A (older snapshot) deletes / re-keys K
+		tg := prof.tables[0]
+		rows := peekRows(tg)
+		if len(rows) == 0 {
+			b.output(tg)
+			return 2
+		}
+		k := rows[r.Intn(len(rows))]
+		src := srcs[r.Intn(len(srcs))]
+		srow := b.randRow(src)
+		srow[1] = k[0]
+		b.force = srow
+		b.output(src)
+		b.finish()
+		a.force = k
+		a.forcePick = true
+		if r.Intn(2) == 0 {
+			a.delete(tg)
+		} else {
+			nk := append([]int{}, k...)
+			nk[0] = 1 + r.Intn(tg.dom[0])
+			a.forceNew = nk
+			a.update(tg)
+		}
+	case 7: // B deletes / re-keys target K and commits; A (older snapshot) inserts a reference to K
+		tg := prof.tables[0]
+		rows := peekRows(tg)
+		if len(rows) == 0 {
+			b.output(tg)
+			return 2
+		}
+		k := rows[r.Intn(len(rows))]
+		b.force = k
+		b.forcePick = true
+		if r.Intn(2) == 0 {
+			b.delete(tg)
+		} else {
+			nk := append([]int{}, k...)
+			nk[0] = 1 + r.Intn(tg.dom[0])
+			b.forceNew = nk
+			b.update(tg)
+		}
+		b.finish()
+		src := srcs[r.Intn(len(srcs))]
+		srow := a.randRow(src)
+		srow[1] = k[0]
+		a.force = srow
+		a.output(src)
+	}
+	return 2
 }
 
 func oneTran(r *rand.Rand) {
@@ -797,13 +1007,26 @@ type hotspot struct {
 }
 
 func (c *client) pickTable() tableDef {
-	if c.hot != nil && c.r.Intn(10) < 7 {
-		return prof.tables[c.hot.table%len(prof.tables)]
+	if c.hot != nil && c.r.Intn(10) < 8 {
+		t := prof.tables[c.hot.table%len(prof.tables)]
+		if strings.Contains(t.admin, " in ") && c.r.Intn(2) == 0 {
+			// a source table is hot: its target (the first table) is hot too, so that
+			// inserts of references race with deletes / key changes of the referenced row
+			return prof.tables[0]
+		}
+		return t
 	}
 	return prof.tables[c.r.Intn(len(prof.tables))]
 }
 
 func (c *client) randRow(td tableDef) []int {
+	if c.force != nil {
+		row := append([]int{}, c.force...)
+		c.force = nil
+		if len(row) == td.ncols {
+			return row
+		}
+	}
 	row := make([]int, td.ncols)
 	for i := range row {
 		if c.hot != nil && i < 4 && c.r.Intn(10) < 6 {
@@ -950,6 +1173,12 @@ func (c *client) scan(td tableDef) {
 		// every index is total (non-unique indexes carry the key columns)
 		limit = 1 + c.r.Intn(3)
 	}
+	if c.forceScan != nil {
+		ix, dir, limit = c.forceScan[0], c.forceScan[1], c.forceScan[2]
+		lo, hi = []int{}, []int{}
+		rng = index.Range{Org: ixkey.Min, End: ixkey.Max}
+		c.forceScan = nil
+	}
 	rows := []any{}
 	eof := 0
 	res := c.guard(func() {
@@ -1014,7 +1243,8 @@ func (c *client) output(td tableDef) {
 // pick an existing row through a scan step on the first index (this registers a read)
 func (c *client) pick(td tableDef) (*core.DbRec, []int) {
 	ts := c.schema(td)
-	if ix := c.keyIndex(ts); ix >= 0 && c.r.Intn(2) == 0 {
+	if ix := c.keyIndex(ts); ix >= 0 && (c.forcePick || c.r.Intn(2) == 0) {
+		c.forcePick = false
 		// point lookup of a (hot) key: registers only the point read
 		row := c.randRow(td)
 		key := keyOfVals(ts, ix, row)
@@ -1084,8 +1314,12 @@ func (c *client) update(td tableDef) {
 		return
 	}
 	nw := append([]int{}, old...)
+	if c.forceNew != nil {
+		nw = c.forceNew
+		c.forceNew = nil
+	}
 	// change one or two columns
-	for n := 1 + c.r.Intn(2); n > 0; n-- {
+	for n := 1 + c.r.Intn(2); n > 0 && c.forceNew == nil && fmt.Sprint(nw) == fmt.Sprint(old); n-- {
 		i := c.r.Intn(td.ncols)
 		if td.opt[i] && c.r.Intn(4) == 0 {
 			nw[i] = 0
